@@ -141,7 +141,9 @@ def run_case(case) -> Result:
                     before = direct2[-2] if n >= 2 else None
                     if not same(ind.prev_reading(name), before):
                         bad("accessors-disagree", "Indicator.prev_reading", f"{name}: {ind.prev_reading(name)!r} vs candle before latest {before!r}", subject)
-                    if not same(hx.prev_reading(name), before):
+                    # Hexital.prev_reading is reading(name, -2): only an in-range position is in the statement's
+                    # quantifier (with a single candle the look-up falls through to other timeframes by design)
+                    if n >= 2 and not same(hx.prev_reading(name), before):
                         bad("accessors-disagree", "Hexital.prev_reading", f"{name}: {hx.prev_reading(name)!r} vs candle before latest {before!r}", subject)
                     if hx.has_reading(name) is not (latest is not None):
                         bad("has_reading-wrong", "Hexital.has_reading", f"{name}: has_reading {hx.has_reading(name)!r} but latest reading is {latest!r}", subject)
